@@ -462,36 +462,40 @@ pub fn tf_mutate(r: &mut Rng, a: (f64, f64), emin: i64, emax: i64) -> (f64, f64)
 
 
 /// Integers whose exact value is the first not representable in f64 around 2^53 / 2^54 (odd
-/// neighbours of a power of two): N = 2^k + d. Returned as u128.
-pub fn boundary_int(r: &mut Rng) -> u128 {
-    let k = pk!(r, [53u32, 53, 53, 54, 55, 106, 64]);
-    let d = pk!(r, [1i128, -1, 3, 1, 1, 5, -3]);
-    ((1i128 << k) + d) as u128
+/// neighbours of a power of two): N = 2^k + d, with all their divisors below 2^22 (computed once).
+fn boundary_table() -> &'static Vec<(u128, Vec<u128>)> {
+    static T: std::sync::OnceLock<Vec<(u128, Vec<u128>)>> = std::sync::OnceLock::new();
+    T.get_or_init(|| {
+        let mut v = Vec::new();
+        for (k, d) in [(53u32, 1i128), (53, -1), (53, 3), (54, 1), (54, -1), (55, 1), (64, -3), (106, 5), (52, 1), (53, 5)] {
+            let n = ((1i128 << k) + d) as u128;
+            let mut divs = Vec::new();
+            let mut p = 2u128;
+            while p < (1 << 22) {
+                if n % p == 0 {
+                    divs.push(p);
+                }
+                p += 1;
+            }
+            v.push((n, divs));
+        }
+        v
+    })
 }
 
-/// A divisor pair (p, q) with p * q == n exactly, p <= 2^26 found by trial division (None if n has
-/// no small factor). Used to build products that equal a boundary integer exactly.
+pub fn boundary_int(r: &mut Rng) -> u128 {
+    let t = boundary_table();
+    t[r.below(t.len() as u64) as usize].0
+}
+
+/// A divisor pair (p, q) with p * q == n exactly and p < 2^22 (None if n has no such factor).
 pub fn small_factor(r: &mut Rng, n: u128) -> Option<(u128, u128)> {
-    let start = 2 + r.below(200) as u128;
-    let mut fs: Vec<u128> = Vec::new();
-    let mut d = start;
-    while d < start + 400_000 && fs.len() < 4 {
-        if n % d == 0 {
-            fs.push(d);
-        }
-        d += 1;
-    }
-    let mut d = 2u128;
-    while d < 2000 {
-        if n % d == 0 {
-            fs.push(d);
-        }
-        d += 1;
-    }
-    if fs.is_empty() {
+    let t = boundary_table();
+    let divs = &t.iter().find(|e| e.0 == n)?.1;
+    if divs.is_empty() {
         None
     } else {
-        let p = fs[r.below(fs.len() as u64) as usize];
+        let p = divs[r.below(divs.len() as u64) as usize];
         Some((p, n / p))
     }
 }
